@@ -82,6 +82,8 @@ type Cut struct {
 	Anchor string
 	Cl     *Clause
 	Hard   bool // "cut" instead of "assert": what follows is proved from the entry facts and this assertion only
+	Use    bool // "use": a lemma instantiation at this point (its requires are obligations, its ensures assumptions)
+	Let    string // "let NAME = expr": ghost snapshot of a value at this point
 }
 
 func (c *Contract) ModifiesNothing() bool { return len(c.Modifies) == 0 && !c.ModifiesAll }
@@ -111,7 +113,7 @@ func clauseTexts(cs []*Clause) string {
 }
 
 var clauseRe = regexp.MustCompile(`^(requires|ensures|invariant|modifies|decreases|let|loop|split|trusted|inline|pure|noalloc|retains|use|results|after)\b(\[[^\]]*\])?\s*(.*)$`)
-var afterRe = regexp.MustCompile("^`([^`]*)`\\s+(assert|cut)(\\[[^\\]]*\\])?\\s+(.*)$")
+var afterRe = regexp.MustCompile("^`([^`]*)`\\s+(assert|cut|use|let)(\\[[^\\]]*\\])?\\s+(.*)$")
 
 // parseContractFile reads //@ blocks from a file. pkgName qualifies unqualified keys.
 var macros = map[string]*Macro{} // key: pkgPath + "." + name
@@ -206,7 +208,16 @@ func parseContractFile(path, pkgName, pkgPath string) ([]*Contract, error) {
 			}
 			c := &Clause{Label: strings.Trim(am[3], "[]"), Text: am[4], Where: where}
 			last = c
-			cur.Cuts = append(cur.Cuts, &Cut{Anchor: strings.TrimSpace(am[1]), Cl: c, Hard: am[2] == "cut"})
+			ct := &Cut{Anchor: strings.TrimSpace(am[1]), Cl: c, Hard: am[2] == "cut", Use: am[2] == "use"}
+			if am[2] == "let" {
+				i := strings.Index(c.Text, "=")
+				if i < 0 {
+					return nil, fmt.Errorf("%s: after ... let needs name = expr", where)
+				}
+				ct.Let = strings.TrimSpace(c.Text[:i])
+				c.Text = strings.TrimSpace(c.Text[i+1:])
+			}
+			cur.Cuts = append(cur.Cuts, ct)
 		case "let":
 			i := strings.Index(rest, "=")
 			if i < 0 {
